@@ -101,6 +101,8 @@ class Harness:
             if conds is not None:
                 mask |= conds(s)
             ev = events.get(k, ())
+            if k > 0 and s._status == -2 and "last" in events:     # the step just done was a LAST_STEP step (cut to fit tmax)
+                ev = set(ev) | set(events["last"])
             if "user" in ev or k >= cap:
                 clib.reb_simulation_stop(sp)
                 mask |= F_USER
@@ -267,6 +269,40 @@ def ceil_frac(x):
     return -((-x.numerator) // x.denominator)
 
 
+def expected_last_full(rec, sg):
+    """the step size integrate() must leave behind with exact_finish_time=1, re-derived from what the heartbeats saw: dt_last_done at the
+    boundary where LAST_STEP was entered for the last time (or the start dt if no step had been done before)"""
+    beats = rec["beats"]
+    last_full = math.copysign(abs(rec["pre"][1]), sg)
+    for j in range(len(beats) - 1):
+        was_running = (j == 0) or beats[j][4] == -1
+        if was_running and beats[j + 1][4] == -2 and beats[j][2] != 0.0:
+            last_full = beats[j][2]
+    return last_full
+
+
+def check_dt_restored_on_exit(integ, rec, fails, stats, what):
+    """exact_finish_time=1 and the call ended with an exit code on the step that had been cut to fit tmax: dt must be back at the full step"""
+    t0, dt_pre = rec["pre"][0], rec["pre"][1]
+    tmax = rec["tmax"]
+    sg = 1.0 if tmax > t0 else -1.0
+    beats = rec["beats"]
+    on_short = len(beats) >= 2 and beats[-1][4] in (-2, 7) and rec["ret"] != 0
+    stats["exits"] = stats.get("exits", 0) + 1
+    if on_short:
+        stats["on_shortened_step"] = stats.get("on_shortened_step", 0) + 1
+    dt1 = rec["post"][1]
+    if KIND[integ] == "adaptive":
+        want = expected_last_full(rec, sg)
+    else:
+        want = math.copysign(abs(dt_pre), sg)
+    if d2h(dt1) != d2h(want):
+        fails.append(("dt-restore-on-exit", "exact_finish_time=1: integrate() ended with status %s and left dt at %r instead of the full step %r"
+                      % (STATUS_NAMES.get(rec["ret"], rec["ret"]), dt1, want),
+                      dict(integrator=integ, exit=what, t0=t0, dt=dt_pre, tmax=tmax, status=rec["ret"], dt_after=dt1, expected_dt=want,
+                           steps=rec["post"][4] - rec["pre"][4], exit_on_shortened_step=on_short)))
+
+
 def check_contract(c, integ, rec, t0dt, fails, worst):
     """the time / step-size clauses of the property on one recorded real call.  t0dt = (|dt| the user set)."""
     t0, dt_pre, _, _, steps0 = rec["pre"]
@@ -309,13 +345,7 @@ def check_contract(c, integ, rec, t0dt, fails, worst):
         if d2h(abs(dt1)) != d2h(abs(t0dt)):
             fails.append(("dt-restore", "fixed-step integrator: |dt| after integrate differs from the user's", info))
     elif exact == 1:
-        # adaptive: dt must be the last full step, i.e. dt_last_done at the boundary where LAST_STEP was entered for the last time
-        # (or the start dt if no step had been done): re-derived from what the heartbeats saw
-        last_full = math.copysign(abs(dt_pre), sg)
-        for j in range(len(beats) - 1):
-            was_running = (j == 0) or beats[j][4] == -1
-            if was_running and beats[j + 1][4] == -2 and beats[j][2] != 0.0:
-                last_full = beats[j][2]
+        last_full = expected_last_full(rec, sg)
         if d2h(dt1) != d2h(last_full):
             fails.append(("dt-restore-adaptive", "adaptive integrator: dt after exact finish is not the last full step",
                           dict(info, expected=last_full)))
@@ -558,6 +588,7 @@ def run(c):
 
     # ------------------------------------------------------------------ B: events at chosen boundaries
     nB = 150 if thorough else 8
+    bstats = {}
     for integ in ["none", "leapfrog", "whfast", "ias15", "bs", "saba", "mercurius", "janus"]:
         for rep in range(nB):
             rng = c.rng.fork()
@@ -585,6 +616,8 @@ def run(c):
                 fails.append(("status-first-boundary", "returned status is not that of the first boundary at which an exit condition holds",
                               dict(integrator=integ, event=ev_kind, boundary=kb, tmax=tmax, exact_finish_time=exact, returned=rec["ret"],
                                    expected=st, heartbeats=len(rec["beats"]), expected_heartbeats=(k + 1 if k is not None else None))))
+            if exact == 1 and rec["ret"] != 0:
+                check_dt_restored_on_exit(integ, rec, fails, bstats, ev_kind)
             c.count((integ, ev_kind, exact, min(kb, 3)))
             # a second call after the event must behave like a fresh call
             if ev_kind in ("user", "sigint", "err") and rng.chance(0.5):
@@ -800,6 +833,89 @@ def run(c):
         c.count(("sync-observable", fam))
     c.cov["synchronize_event"] = sync_stats
 
+    # ------------------------------------------------------------------ G: exit conditions that first hold on the shortened last step
+    # exact_finish_time = 1, tmax not on a step boundary: the last step is cut to tmax - t.  Every exit kind is made to fire exactly at the
+    # boundary that ends this cut step; the call must return that code AND leave dt at the full step (rebound.c:881-884 restores on every path).
+    gstats = {"exits": 0, "on_shortened_step": 0, "skipped_scenes": 0, "by_kind": {}}
+    g_integs = ["leapfrog", "whfast", "saba", "eos", "mercurius", "sei", "janus", "none", "trace", "ias15", "bs", "emulated"]
+    g_kinds = ["user", "err", "sigint", "empty", "escape", "encounter", "collision"]
+    nG = 3 if thorough else 1
+    for rep in range(nG):
+        for integ in g_integs:
+            for kind in g_kinds:
+                rng = c.rng.fork()
+                real = "none" if integ == "emulated" else integ
+                direction = 1 if integ == "trace" else rng.choice([1, -1])
+                if kind == "collision":
+                    direction = 1        # the "approaching" test of the collision search uses forward-time velocities
+                dt0 = rng.choice([0.1, 0.25, 0.07]) * rng.choice([1, -1])
+                ksteps = rng.randint(1, 4)
+                tmax = direction * abs(dt0) * (ksteps + rng.uniform(0.2, 0.8))
+                physical = kind in ("escape", "encounter", "collision")
+                if physical and integ in ("none", "emulated", "sei", "ias15", "bs", "mercurius", "trace"):
+                    continue     # NONE does not move particles; adaptive step boundaries are not known beforehand; MERCURIUS/TRACE collide inside
+                script = None
+                if integ == "emulated":
+                    def script(k, dt_in, status, sg=float(direction), mag=abs(dt0)):
+                        return True, 1.0, sg * mag
+                if not physical:
+                    sim = H.make_sim(real, 0.0, dt0, rng)
+                    rec = H.call(sim, tmax, 1, events={"last": {kind}}, script=script)
+                    H.sigint.value = 0
+                else:
+                    massive = integ in KEPLER_BASED
+                    v = (3.0 if massive else 1.0)
+                    T = abs(tmax)
+
+                    def scene():
+                        sim = H.make_sim(real, 0.0, dt0, rng.fork(), physics=("central" if massive else "free"))
+                        sim.add(m=(1.0 if massive else 0.0), x=0.0, r=0.0)
+                        if kind == "escape":
+                            sim.add(m=0.0, x=0.3, y=0.2, vx=direction * v)                    # moves outwards in the direction of time
+                        else:
+                            sim.add(m=0.0, x=-(1.5 * v * T + 1.0), y=0.02, vx=direction * v)     # approaches the anchor
+                        return sim
+
+                    def measure(sim):
+                        p, q = sim.particles[1], sim.particles[0]
+                        if kind == "escape":
+                            return max(math.sqrt(a.x * a.x + a.y * a.y + a.z * a.z) for a in (p, q))
+                        return math.sqrt((p.x - q.x) ** 2 + (p.y - q.y) ** 2 + (p.z - q.z) ** 2)
+                    ref = scene()
+                    ref.integrate(direction * abs(dt0) * ksteps)
+                    qk = measure(ref)
+                    ref.integrate(tmax)
+                    qe = measure(ref)
+                    ok_scene = (qe > qk * (1 + 1e-6)) if kind == "escape" else (qe < qk * (1 - 1e-6))
+                    if not ok_scene or ref.steps_done != ksteps + 1:
+                        gstats["skipped_scenes"] += 1
+                        continue
+                    thr = 0.5 * (qk + qe)
+                    sim = scene()
+                    maxd = mind = 0.0
+                    radii = False
+                    if kind == "escape":
+                        sim.exit_max_distance = maxd = thr
+                    elif kind == "encounter":
+                        sim.exit_min_distance = mind = thr
+                    else:
+                        sim.collision = "direct"; sim.collision_resolve = "halt"
+                        sim.particles[0].r = 0.5 * thr; sim.particles[1].r = 0.5 * thr
+                        radii = True
+                    rec = H.call(sim, tmax, 1, conds=cond_fn(maxd, mind, radii))
+                record(integ, rec, "last-step-exit:" + kind, is_bs=(integ == "bs"))
+                want = {"user": 5, "err": 1, "sigint": 6, "empty": 2, "escape": 4, "encounter": 3, "collision": 7}[kind]
+                if kind == "empty" and integ == "bs":
+                    want = rec["ret"]          # BS with its N-body ODE registered goes on without particles
+                if rec["ret"] != want:
+                    fails.append(("status-first-boundary", "exit condition on the last step: returned status %s, expected %s" % (rec["ret"], want),
+                                  dict(integrator=integ, exit=kind, dt=dt0, tmax=tmax, returned=rec["ret"], expected=want)))
+                if rec["ret"] != 0:
+                    check_dt_restored_on_exit(integ, rec, fails, gstats, kind)
+                    gstats["by_kind"][kind] = gstats["by_kind"].get(kind, 0) + 1
+                c.count(("last-step-exit", integ, kind, direction))
+    c.cov["exit_on_shortened_last_step"] = gstats
+
     # ------------------------------------------------------------------ model vs implementation
     c.log("running %d integrate calls through drv_c08" % len(lines))
     got = run_driver(exe, lines)
@@ -921,6 +1037,119 @@ def search_more(c, H, scratch, fails, worst):
             if reversed_ and integ == "trace":
                 split_stats["reversing_partitions"] += 1
     c.cov["split_vs_single"] = split_stats
+
+    # ------------------------------------------------------------------ Python API: call sequences mixing explicit and default exact_finish_time
+    # The documented default of Simulation.integrate is exact finishing.  It must hold for every call that omits the argument, whatever an
+    # earlier call on the same simulation (or the simulation it was copied from) asked for.
+    seq_stats = {"sequences": 0, "calls": 0, "default_after_0": 0, "on_copy": 0}
+    nQ = 12 if thorough else 3
+    for integ in REAL:
+        for rep in range(nQ):
+            rng = c.rng.fork()
+            direction = 1 if integ == "trace" else rng.choice([1, -1])
+            dt0 = rng.choice([0.1, 0.25, 0.07, rng.uniform(0.05, 0.4)]) * (1 if integ == "trace" else rng.choice([1, -1]))
+            sim = H.make_sim(integ, 0.0, dt0, rng)
+            seq_stats["sequences"] += 1
+            prev = None
+            hist = []
+            for call in range(rng.randint(3, 6)):
+                mode = rng.choice(["default", "default", 0, 1])
+                if prev == 0 and rng.chance(0.6):
+                    mode = "default"
+                if mode == "default" and prev == 0 and rng.chance(0.4):
+                    sim = sim.copy()                      # the flag travels with copies / snapshots
+                    seq_stats["on_copy"] += 1
+                # next target well beyond the current time (an overshooting call may have passed the previous one), never on a boundary
+                tgt = sim.t + direction * abs(dt0) * (rng.randint(1, 4) + rng.uniform(0.15, 0.85))
+                t_before = sim.t
+                if mode == "default":
+                    sim.integrate(tgt)
+                else:
+                    sim.integrate(tgt, exact_finish_time=mode)
+                hist.append([mode, tgt, sim.t])
+                seq_stats["calls"] += 1
+                c.count(("pyseq", integ, str(mode), str(prev)))
+                if mode == "default" and prev == 0:
+                    seq_stats["default_after_0"] += 1
+                tol = 1e-12 * abs(tgt) if 1e-12 * abs(tgt) >= 1e-200 else 1e-12
+                if mode in ("default", 1):
+                    if not abs(sim.t - tgt) <= tol:
+                        fails.append(("python-default-exact-finish",
+                                      "Simulation.integrate(tmax%s) did not end at tmax (previous call used exact_finish_time=%s)"
+                                      % ("" if mode == "default" else ", exact_finish_time=1", prev),
+                                      dict(integrator=integ, dt=dt0, calls=hist, t_end=sim.t, tmax=tgt, overshoot=(sim.t - tgt) * direction)))
+                        break
+                else:
+                    over = (sim.t - tgt) * direction
+                    if not (0 <= over < abs(dt0) * (1 + 1e-9)) and KIND[integ] != "adaptive":
+                        fails.append(("python-no-exact-finish", "Simulation.integrate(tmax, exact_finish_time=0) did not end at the first boundary past tmax",
+                                      dict(integrator=integ, dt=dt0, calls=hist, overshoot=over)))
+                        break
+                prev = mode if mode != "default" else 1
+    c.cov["python_call_sequences"] = seq_stats
+
+    # ------------------------------------------------------------------ Python API: exception raised on the shortened last step, dt afterwards
+    pyexit = {"raised": 0}
+    for integ in ["leapfrog", "whfast", "eos", "saba"]:
+        for kind in ("escape", "encounter", "collision", "user"):
+            rng = c.rng.fork()
+            massive = integ in KEPLER_BASED
+            direction = 1 if kind == "collision" else rng.choice([1, -1])
+            dt0 = rng.choice([0.1, 0.25]) * rng.choice([1, -1])
+            ksteps = rng.randint(1, 3)
+            tmax = direction * abs(dt0) * (ksteps + rng.uniform(0.25, 0.75))
+            v = 3.0 if massive else 1.0
+
+            def scene():
+                sim = H.make_sim(integ, 0.0, dt0, rng.fork(), physics=("central" if massive else "free"))
+                sim.add(m=(1.0 if massive else 0.0), x=0.0)
+                if kind == "escape":
+                    sim.add(m=0.0, x=0.3, y=0.2, vx=direction * v)
+                else:
+                    sim.add(m=0.0, x=-(1.5 * v * abs(tmax) + 1.0), y=0.02, vx=direction * v)
+                return sim
+
+            def measure(sim):
+                p, q = sim.particles[1], sim.particles[0]
+                if kind == "escape":
+                    return max(math.sqrt(a.x * a.x + a.y * a.y + a.z * a.z) for a in (p, q))
+                return math.sqrt((p.x - q.x) ** 2 + (p.y - q.y) ** 2 + (p.z - q.z) ** 2)
+            ref = scene()
+            ref.integrate(direction * abs(dt0) * ksteps)
+            qk = measure(ref)
+            ref.integrate(tmax)
+            qe = measure(ref)
+            sim = scene()
+            thr = 0.5 * (qk + qe)
+            if kind == "escape":
+                sim.exit_max_distance = thr
+            elif kind == "encounter":
+                sim.exit_min_distance = thr
+            elif kind == "collision":
+                sim.collision = "direct"; sim.collision_resolve = "halt"
+                sim.particles[0].r = 0.5 * thr; sim.particles[1].r = 0.5 * thr
+            else:
+                nb = [0]
+
+                def hb(sp, nb=nb):
+                    nb[0] += 1
+                    if nb[0] == ksteps + 2:
+                        H.clib.reb_simulation_stop(sp)
+                sim.heartbeat = hb
+            got = None
+            try:
+                sim.integrate(tmax)
+            except Exception as e:
+                got = type(e).__name__
+            pyexit["raised"] += 1 if got else 0
+            c.count(("py-last-step-exit", integ, kind))
+            want_dt = math.copysign(abs(dt0), direction)
+            if sim._status != 0 and d2h(sim.dt) != d2h(want_dt):
+                fails.append(("dt-restore-on-exit", "Simulation.integrate ended with %s (status %d) on the shortened last step and left sim.dt = %r instead of %r"
+                              % (got, sim._status, sim.dt, want_dt),
+                              dict(integrator=integ, exit=kind, dt=dt0, tmax=tmax, raised=got, status=sim._status, dt_after=sim.dt, expected_dt=want_dt,
+                                   steps=sim.steps_done)))
+    c.cov["python_exit_on_last_step"] = pyexit
 
     # ------------------------------------------------------------------ Python layer: exception class per status
     exc_seen = {}
